@@ -48,7 +48,7 @@ import (
 
 func TestMain(m *testing.M) {
 	stats.Init("C16")
-	stats.Rule("(A) streams = handshake (valid | one of 8 deviations | truncated) + 0-6 frames each valid (len 0..L, L drawn from {1,7,8,64,1000,1MiB} or 0 = unlimited, where only negative lengths are hostile) or hostile (announced length L+1, 2L, 2^26..2^62, negative; truncated prefix/body; IPC prefix byte), tcp and ipc framing; (B) constructor x {tcp,ipc,ws} x 1-4 hostile raw peers with drawn scripts next to a control peer; (C) 24 constructors x 1-30 generated bodies of 0-12 bytes plus structured garbage over vt. Also: limit 0 (only negative lengths hostile); limit changed on socket or listener after Listen; chunked reads; tls+tcp hostile peers. Non-trivial: the input is not a valid handshake+frame sequence; distinct by (layer, defect classes, length classes)")
+	stats.Rule("(A) streams = handshake (valid | one of 8 deviations | truncated) + 0-6 frames each valid (len 0..L, L drawn from {1,7,8,64,1000,1MiB} or 0 = unlimited, where only negative lengths are hostile) or hostile (announced length L+1, 2L, 2^26..2^62, negative; truncated prefix/body; IPC prefix byte), tcp and ipc framing; (B) constructor x {tcp,ipc,ws} x 1-4 hostile raw peers with drawn scripts next to a control peer; (C) 24 constructors x 1-30 generated bodies of 0-12 bytes plus structured garbage over vt. Also: limit 0 (only negative lengths hostile); limit changed on socket or listener after Listen; chunked reads; tls+tcp hostile peers. Non-trivial: the input is not a valid handshake+frame sequence; distinct by (layer, defect classes, length classes). Round 5: (D) hostile WebSocket clients against ws/wss listeners and a scripted hostile ws/wss server against dialers: 19 scripts incl. over-limit announcements (one frame / fragments / top-bit length), RFC 6455 violations, control frames, permessage-deflate bomb")
 	stats.Assume("with MaxRecvSize=0 (documented: no limit, trusted peers only) huge positive lengths are not sent (honouring them is the documented behaviour), negative ones are; the IPC prefix byte value of incoming frames is not asserted")
 	rc := m.Run()
 	stats.Flush()
